@@ -65,6 +65,14 @@ def replay(pid, path):
             print("VIOLATION property=%s replay=%s" % (pid, path))
             return 1
         return 0
+    if rec.get("kind") == "optimizer-output-meaning":
+        import optdesign
+        d = optdesign.replay(rec)
+        print("replayed 1 case: %d differing evaluation(s)" % len(d))
+        if d:
+            print("VIOLATION property=%s replay=%s" % (pid, path))
+            return 1
+        return 0
     if pid == "C13" and "text" in rec:
         import props
         d = tempfile.mkdtemp(prefix="replay-", dir=P.workdir())
